@@ -46,6 +46,10 @@ pub enum Req {
     /// and fail otherwise
     SetPolicy(u8),
     RegisterPeer(u8),
+    /// `n` plain opens in a row (a crowd of handles: 254..300, beyond any byte-sized counter)
+    OpenMany { d: u8, n: u16 },
+    /// `n` closes in a row, each reply compared with the model
+    CloseMany { d: u8, n: u16 },
 }
 
 #[derive(Serialize, Deserialize, Clone, Debug)]
@@ -165,6 +169,12 @@ impl Prop for C14 {
             1 => Just(Req::Flush),
             1 => d().prop_map(Req::SetPolicy),
             1 => d().prop_map(Req::RegisterPeer),
+        ];
+        let many = prop::sample::select(vec![254u16, 255, 256, 257, 300]);
+        let req = prop_oneof![
+            600 => req,
+            1 => (d(), many.clone()).prop_map(|(d, n)| Req::OpenMany { d, n }),
+            1 => (d(), many).prop_map(|(d, n)| Req::CloseMany { d, n }),
         ];
         let seq = (prop::bool::weighted(0.2), prop_oneof![3 => Just(7u8), 2 => 0u8..8], vec(req, 1..=max), prop::bool::weighted(0.4))
             .prop_map(|(file, preimport, reqs, sparse_observe)| Case::Sequential(Seq { file, preimport, reqs, sparse_observe }));
@@ -547,6 +557,49 @@ fn run(ctx: &mut Ctx, c: &Seq, o: &mut Outcome) -> R<()> {
                 }
                 Req::Flush => {
                     es(h.flush_store().await)?;
+                }
+                Req::OpenMany { d, n } => {
+                    let du = *d as usize;
+                    o.class("crowd-of-handles(254..300-opens-in-a-row)");
+                    for j in 0..*n {
+                        let res = h.open(ids[du], OpenOpts::default()).await;
+                        if res.is_ok() != docs[du].exists {
+                            o.fail("C14/open", format!("{what}, open {j}: ok={} but document exists={}", res.is_ok(), docs[du].exists));
+                            break;
+                        }
+                        if res.is_ok() {
+                            docs[du].handles += 1;
+                            opens[du] += 1;
+                        } else {
+                            failed_request = true;
+                        }
+                    }
+                    if o.failed() {
+                        break;
+                    }
+                }
+                Req::CloseMany { d, n } => {
+                    let du = *d as usize;
+                    for j in 0..*n {
+                        let res = es(h.close(ids[du]).await)?;
+                        let m = &mut docs[du];
+                        if m.handles > 0 {
+                            m.handles -= 1;
+                            closes[du] += 1;
+                            if m.handles == 0 {
+                                m.sync = false;
+                                m.subs.clear();
+                                m.dead_subs = 0;
+                            }
+                        }
+                        if res != (m.handles == 0) {
+                            o.fail("C14/close-result", format!("{what}, close {j}: returned {res}, model has {} handles left", m.handles));
+                            break;
+                        }
+                    }
+                    if o.failed() {
+                        break;
+                    }
                 }
                 Req::SetPolicy(d) | Req::RegisterPeer(d) => {
                     let du = *d as usize;
